@@ -23,8 +23,10 @@ type PropDef struct {
 	ID          string
 	Rule        string
 	Assumptions []string
-	Gen         func(t *rapid.T, thorough bool) *Case
-	Check       func(c *Case, st *Stats) *Failure
+	// Pre runs once per shard before the generated search (exhaustive parts).
+	Pre   func(st *Stats, shard, shards int, thorough bool) (*Case, *Failure)
+	Gen   func(t *rapid.T, thorough bool) *Case
+	Check func(c *Case, st *Stats) *Failure
 }
 
 var Props = map[string]*PropDef{}
